@@ -842,6 +842,13 @@ pub fn random_case(rng: &mut Rng, reg: &[Entry], enabled: &[bool]) -> Case {
     if kinds.is_empty() {
         kinds.push("none");
     }
+    // allocation-fault cases run in a forked child: keep them at about one case in fifty
+    if kinds.contains(&"allocfail") && !rng.chance(1, 4) {
+        kinds.retain(|k| *k != "allocfail");
+        if kinds.is_empty() {
+            kinds.push("none");
+        }
+    }
     if kinds.contains(&"dupkey") && !entry.is_reply && dup_key(rng, &entry.ty, &mut value) {
         faults.push("dupkey".into());
     }
@@ -1002,7 +1009,7 @@ pub fn big_payload_case(rng: &mut Rng, reg: &[Entry]) -> Case {
             w.size(0);
         }
     }
-    let nth = if rng.chance(1, 4) { 0 } else { 1 + rng.usize_below(2) };
+    let nth = if rng.chance(3, 4) { 0 } else { 1 + rng.usize_below(2) };
     Case { ty: entry.name.to_owned(), bytes: refcodec::util::hex(&w.out), alloc_fail_nth: nth, faults: vec![format!("big/allocfail#{nth}")] }
 }
 
